@@ -71,6 +71,10 @@ def run(ctx):
         r.inst("common." + name, sample={"field": name, "how": EXC.get(name)})
         if name not in EXC:
             r.violate("common." + name, f"state field `{name}` exists in both Lexer and TagScanner but is neither carried by the bookmark nor re-established at a switch", None)
+        elif EXC[name].startswith("bookmark."):
+            bf = EXC[name].split(".", 1)[1]
+            if bf not in fields or bf not in src or bf not in restore:
+                r.violate("common." + name, f"state field `{name}` exists in both Lexer and TagScanner but StateMachineBookmark no longer carries it ({bf} captured: {bf in src}, restored: {bf in restore}): the value the tag scanner established (e.g. CDATA permission after <svg>/<math>, text type, last start tag) is lost when the parser switches to the lexer for a matched tag", cf.loc())
 
     rule_sticky_scratch(ctx, mir, idx)
 
